@@ -234,6 +234,7 @@ func genConfig(prop string, rng *rand.Rand) cfgT {
 type gen struct {
 	senders   [][]byte
 	edgeSizes bool // a few transactions have sizes >= 2^31
+	nonceBase uint64 // all ordinary nonces (transactions and accounts) are shifted by this: 0, or just above 2^31 / 2^32 / 2^53 / 2^63
 	uniform   bool // all transactions have the same size (one drop always suffices: no F4)
 	rng       *rand.Rand
 	known     map[string]*txSpec // hash determines content
@@ -254,7 +255,7 @@ func (g *gen) newTx(base string) *txSpec {
 	}
 	t := &txSpec{hash: []byte(h)}
 	t.sender = core.Pick(rng, g.senders)
-	t.nonce = core.Pick(rng, []uint64{0, 0, 1, 1, 2, 2, 3, 3, 4, 5})
+	t.nonce = g.nonceBase + core.Pick(rng, []uint64{0, 0, 1, 1, 2, 2, 3, 3, 4, 5})
 	if core.Chance(rng, 1, 40) {
 		t.nonce = core.Pick(rng, []uint64{math.MaxUint64, math.MaxUint64 - 1})
 	}
@@ -323,7 +324,7 @@ func (g *gen) sessionArgs(gasTable []uint64, maxTable []uint64) []string {
 		if core.Chance(rng, 1, 7) {
 			continue // lookup failure
 		}
-		nonce := core.Pick(rng, []uint64{0, 0, 0, 1, 1, 2, 3})
+		nonce := g.nonceBase + core.Pick(rng, []uint64{0, 0, 0, 1, 1, 2, 3})
 		if core.Chance(rng, 1, 40) {
 			nonce = math.MaxUint64 - 1
 		}
@@ -354,6 +355,10 @@ func (comp) Gen(prop string, rng *rand.Rand, tier string) *core.History {
 	cfg := genConfig(prop, rng)
 	h.SetConfig(cfg.tokens()...)
 	g := &gen{rng: rng, known: map[string]*txSpec{}, uniform: core.Chance(rng, 3, 5), edgeSizes: core.Chance(rng, 1, 15), senders: cfg.senderList()}
+	if core.Chance(rng, 1, 10) {
+		// nonces beyond what a float64, an int64 or a 32-bit integer holds exactly
+		g.nonceBase = core.Pick(rng, []uint64{1<<53 + 1, 1<<53 + 1, 1<<63 - 2, 1<<32 - 2, 1<<31 - 2, 1<<24 + 1})
+	}
 	n := core.LongHistory(rng, 12+rng.Intn(40))
 	selW, remW := 22, 12
 	switch base {
@@ -430,6 +435,30 @@ func (comp) Exhaustive(prop string, tier string, yield func(*core.History)) {
 				h.Add(2, "", core.B([]byte(fmt.Sprintf("h-%02d-%02d", i, nN/2))))
 			}
 			sel(math.MaxUint64, 30000)
+		}
+		yield(h)
+	}
+	// MANY ALTERNATIVES FOR ONE NONCE (beyond the small scope): a sender re-sending one nonce 300 times with an ever higher gas price,
+	// then duplicates of the cheapest and of the dearest one, a removal, and a selection (any bound on the backward scan shows)
+	if !strings.Contains(prop, ":") && (base == "C04" || base == "C05" || base == "C03") {
+		senders := [][]byte{[]byte("A"), []byte("B")}
+		cfg := cfgT{numBytes: 1 << 28, bytesPerSender: 1 << 24, count: 1 << 20, countPerSender: 1 << 20, batch: 1, chunks: 3, senders: senders}
+		h := &core.History{}
+		h.SetConfig(cfg.tokens()...)
+		mkAlt := func(j int) *txSpec {
+			gp := uint64(1000 + j)
+			return &txSpec{hash: []byte(fmt.Sprintf("alt-%03d", j)), sender: []byte("A"), nonce: 7, gasLimit: 50000, gasPrice: gp,
+				fee: new(big.Int).Mul(new(big.Int).SetUint64(gp), big.NewInt(50000)), value: big.NewInt(1), relayer: []byte{}, size: 100}
+		}
+		for j := 0; j < 300; j++ {
+			h.Add(1, "", mkAlt(j).args()...)
+		}
+		h.Add(1, "re-add the dearest", mkAlt(299).args()...)
+		h.Add(1, "re-add the cheapest", mkAlt(0).args()...)
+		h.Add(1, "re-add one in the middle", mkAlt(20).args()...)
+		h.Add(2, "", core.B([]byte("alt-150")))
+		if base == "C03" {
+			h.Add(4, "select", core.N(math.MaxUint64), core.N(1000), core.L(core.L(core.B([]byte("A")), core.N(7), core.Z(new(big.Int).Exp(big.NewInt(10), big.NewInt(22), nil)))), core.L())
 		}
 		yield(h)
 	}
@@ -1357,6 +1386,10 @@ func monitorSelectSpec(res *core.Result, i int, cfg txcache.ConfigSourceMe, spec
 	p, _ := cache.SelectTransactions(sess, gas, mx, 0)
 	if !isPrefix(p) {
 		res.Failf("C03", i, "a zero time budget does not yield a prefix")
+	}
+	// ... and the largest budget there is ("no time limit") yields the whole of it
+	if pmax, gmax := cache.SelectTransactions(sess, gas, mx, time.Duration(math.MaxInt64)); len(pmax) != len(txs) || !isPrefix(pmax) || gmax != accGas {
+		res.Failf("C03", i, "with the time budget time.Duration(MaxInt64) the selection has %d transactions / gas %d, with one hour %d / %d", len(pmax), gmax, len(txs), accGas)
 	}
 	// insertion order and chunk count independence (only when the pool is exactly the set of added transactions)
 	if onlyAdds && len(added) > 1 && len(added) <= 40 {
